@@ -220,6 +220,86 @@ class Atoms:
         self.by_symbol = {}
 
     def get(self, kind, arg):
+        if kind == 'log' and isinstance(arg, Rat):
+            r = self._split_log(arg)
+            if r is not None:
+                return r
+        if kind == 'exp' and isinstance(arg, Rat):
+            r = self._pull_logs_out_of_exp(arg)
+            if r is not None:
+                return r
+        return self._get(kind, arg)
+
+    # log(c * m * p / (c' * m' * p')) = log c - log c' + sum e_k log x_k + log p - log p'   (m monomial content, p primitive part)
+    def _split_log(self, arg):
+        def parts(poly):
+            if poly.iszero():
+                return None
+            keys = sorted(poly.t)
+            mono = {}
+            first = True
+            for k in keys:
+                d = dict(k)
+                if first:
+                    mono = dict(d)
+                    first = False
+                else:
+                    mono = {n: min(e, d.get(n, 0)) for n, e in mono.items() if d.get(n, 0) > 0}
+            lead = poly.t[keys[0]]
+            prim = {}
+            for k, v in poly.t.items():
+                d = dict(k)
+                for n, e in mono.items():
+                    d[n] = d[n] - e
+                prim[tuple(sorted((n, e) for n, e in d.items() if e))] = v / lead
+            return lead, mono, Poly(prim)
+        pn, pd = parts(arg.n), parts(arg.d)
+        if pn is None or pd is None:
+            return None
+        (cn, mn, primn), (cd, md, primd) = pn, pd
+        c = cn / cd
+        if c <= 0:
+            return None
+        trivial = (not mn and not md and primd.isconst() and c == 1)
+        if trivial:
+            return None          # already a primitive polynomial: a plain atom
+        out = Rat.const(0)
+        if c != 1:
+            out = out + self._get('log', Rat.const(c))
+        for n in sorted(set(mn) | set(md)):
+            e = mn.get(n, 0) - md.get(n, 0)
+            if e:
+                out = out + Rat.const(e) * self._get('log', Rat.sym(n))
+        if not primn.isconst():
+            out = out + self._get('log', Rat(primn))
+        if not primd.isconst():
+            out = out - self._get('log', Rat(primd))
+        return out
+
+    # exp(R0 + sum k_i log#i) = exp(R0) * prod arg_i^k_i   for integer constants k_i
+    def _pull_logs_out_of_exp(self, arg):
+        if not arg.d.isconst():
+            return None
+        rest = {}
+        factor = Rat.const(1)
+        found = False
+        for k, v in arg.n.t.items():
+            v = v / arg.d.constval()
+            if len(k) == 1 and k[0][1] == 1 and k[0][0] in self.by_symbol and self.by_symbol[k[0][0]].kind == 'log' \
+                    and v.denominator == 1:
+                a = self.by_symbol[k[0][0]]
+                factor = factor * (a.arg ** int(v))
+                found = True
+            else:
+                rest[k] = v
+        if not found:
+            return None
+        r0 = Rat(Poly(rest))
+        if r0.iszero():
+            return factor
+        return factor * self._get('exp', r0)
+
+    def _get(self, kind, arg):
         for a in self.items:
             if a.kind == kind and isinstance(a.arg, Rat) and isinstance(arg, Rat) and a.arg.eq(arg):
                 return Rat.sym(a.symbol)
